@@ -111,7 +111,7 @@ Definition opt_pids_eqb (a b : option (list pid)) : bool :=
   | _, _ => false
   end.
 
-Fixpoint seq_tags (u : universe) (all : list call) (x : state) (exact : bool)
+Fixpoint seq_tags (u : universe) (all : list call) (anyamb : bool) (x : state) (exact : bool)
   (calls : list call) (obs oracle : list (list outcome))
   (bef : list (option (list pid))) (aft : list (list pid)) (amb : list bool) : list string :=
   match calls, obs, oracle, bef, aft, amb with
@@ -124,12 +124,15 @@ Fixpoint seq_tags (u : universe) (all : list call) (x : state) (exact : bool)
       let (wrong, dt) := if m then (true, []) else dq_tags u prec c b a in
       let exact' := exact && negb m in
       let x' := model_step u x c in
-      dt ++ result_tags u prec wrong o r ++
+      (* when some call of the history has an order-dependent key, whether the
+         keys collided differs between the repetitions, and the entries were
+         recorded in the last repetition only *)
+      dt ++ result_tags u prec (wrong || anyamb) o r ++
       (if exact' then
          tag_if (negb (opt_pids_eqb (model_entry u x c) b)) "mismatch:dq-cache-model/entry-before-call" ++
          tag_if (negb (opt_pids_eqb (model_entry u x' c) (Some a))) "mismatch:dq-cache-model/entry-after-call"
        else []) ++
-      seq_tags u all x' exact' calls' obs' oracle' bef' aft' amb'
+      seq_tags u all anyamb x' exact' calls' obs' oracle' bef' aft' amb'
   | _, _, _, _, _, _ => ["mismatch:harness-shape/lengths"]
   end.
 
@@ -155,7 +158,7 @@ Fixpoint dedup_tags (l : list string) : list string :=
 Definition check_history (c : hcase) : list string :=
   dedup_tags (
     (if h_conc c then conc_tags (h_univ c) (h_calls c) (h_calls c) (h_obs c) (h_oracle c)
-     else seq_tags (h_univ c) (h_calls c) empty_state true (h_calls c) (h_obs c) (h_oracle c)
+     else seq_tags (h_univ c) (h_calls c) (existsb (fun b => b) (h_ambig c)) empty_state true (h_calls c) (h_obs c) (h_oracle c)
                    (h_dq_before c) (h_dq_after c) (h_ambig c)) ++
     proto_tags (h_proto c) ++
     tag_if (match h_memo_bad c with [] => false | _ => true end) "viol:memo-entry-differs-from-parse").
